@@ -1,0 +1,90 @@
+//go:build verif
+
+package diff
+
+// Machine-checked contracts for /verif (comment-only; compiled only with -tags verif).
+// Syntax: see /verif/DESIGN.md §4.
+
+//@ func CompareIntValues
+//@ props C12 C13 C14
+//@ safety
+//@ modifies nothing
+//@ ensures val1 != nil && val2 != nil && *val2 > *val1 ==> len(result) == 1 && result[0].Change == ifGreaterCode
+//@ ensures val1 != nil && val2 != nil && *val2 < *val1 ==> len(result) == 1 && result[0].Change == ifLessCode
+//@ ensures val1 != nil && val2 == nil ==> len(result) == 1 && result[0].Change == DeletedConstraint
+//@ ensures val1 == nil && val2 != nil ==> len(result) == 1 && result[0].Change == AddedConstraint
+//@ ensures (val1 == nil && val2 == nil) || (val1 != nil && val2 != nil && *val1 == *val2) ==> len(result) == 0
+//@ ensures vs_fresh(result)
+
+//@ func CompareFloatValues
+//@ props C12 C13 C14
+//@ safety
+//@ modifies nothing
+//@ ensures val1 != nil && val2 != nil && *val2 > *val1 ==> len(result) == 1 && result[0].Change == ifGreaterCode
+//@ ensures val1 != nil && val2 != nil && *val2 < *val1 ==> len(result) == 1 && result[0].Change == ifLessCode
+//@ ensures val1 != nil && val2 == nil ==> len(result) == 1 && result[0].Change == DeletedConstraint
+//@ ensures val1 == nil && val2 != nil ==> len(result) == 1 && result[0].Change == AddedConstraint
+//@ ensures (val1 == nil && val2 == nil) || (val1 != nil && val2 != nil && *val1 == *val2) ==> len(result) == 0
+//@ ensures vs_fresh(result)
+
+//@ func CheckToFromRequired
+//@ props C12 C13 C14
+//@ safety
+//@ modifies nothing
+//@ ensures required1 == required2 ==> len(diffs) == 0
+//@ ensures !required1 && required2 ==> len(diffs) == 1 && diffs[0].Change == ChangedOptionalToRequired
+//@ ensures required1 && !required2 ==> len(diffs) == 1 && diffs[0].Change == ChangedRequiredToOptional
+
+//@ func addTypeDiff
+//@ props C12 C13 C14
+//@ safety
+//@ modifies nothing
+//@ ensures diff.Change == NoChangeDetected ==> vs_same(result, diffs)
+//@ ensures diff.Change != NoChangeDetected ==> len(result) == len(diffs)+1 && result[len(diffs)] == diff
+//@ ensures diff.Change != NoChangeDetected ==> vs_all(func(i int) bool { return 0 <= i && i < len(diffs) ==> result[i] == diffs[i] })
+
+//@ func getTypeHierarchyChange
+//@ props C13 C14
+//@ safety
+//@ modifies nothing
+//@ ensures isStringType(type1) && !isStringType(type2) ==> result.Change == NarrowedType
+//@ ensures !isStringType(type1) && isStringType(type2) ==> result.Change == WidenedType
+//@ ensures isStringType(type1) == isStringType(type2) && vs_numeric(type1) && vs_numeric(type2) && vs_wideness(type1) == vs_wideness(type2) ==> result.Change == ChangedToCompatibleType
+//@ ensures isStringType(type1) == isStringType(type2) && vs_numeric(type1) && vs_numeric(type2) && vs_wideness(type1) > vs_wideness(type2) ==> result.Change == NarrowedType
+//@ ensures isStringType(type1) == isStringType(type2) && vs_numeric(type1) && vs_numeric(type2) && vs_wideness(type1) < vs_wideness(type2) ==> result.Change == WidenedType
+//@ ensures isStringType(type1) == isStringType(type2) && !(vs_numeric(type1) && vs_numeric(type2)) ==> result.Change == ChangedType
+
+//@ func checkNumericTypeChanges
+//@ props C12 C13 C14
+//@ safety
+//@ modifies nothing
+//@ requires type1 != nil && type2 != nil && len(type1.Type) > 0 && len(type2.Type) > 0
+//@ ensures vs_extends(diffs, result)
+//@ ensures !(vs_numericT(type1) && vs_numericT(type2)) ==> vs_same(result, diffs)
+//@ ensures vs_numericT(type1) && vs_numericT(type2) && !type1.ExclusiveMaximum && type2.ExclusiveMaximum ==> vs_hasCode(result, len(diffs), NarrowedType)
+//@ ensures vs_numericT(type1) && vs_numericT(type2) && !type1.ExclusiveMinimum && type2.ExclusiveMinimum ==> vs_hasCode(result, len(diffs), NarrowedType)
+//@ ensures vs_numericT(type1) && vs_numericT(type2) && vs_sameExclusive(type1, type2) && type1.Maximum != nil && type2.Maximum != nil && *type2.Maximum < *type1.Maximum ==> vs_hasCode(result, len(diffs), NarrowedType)
+//@ ensures vs_numericT(type1) && vs_numericT(type2) && vs_sameExclusive(type1, type2) && type1.Maximum == nil && type2.Maximum != nil ==> vs_hasCode(result, len(diffs), AddedConstraint)
+//@ ensures vs_numericT(type1) && vs_numericT(type2) && vs_sameExclusive(type1, type2) && type1.Minimum != nil && type2.Minimum != nil && *type2.Minimum > *type1.Minimum ==> vs_hasCode(result, len(diffs), NarrowedType)
+//@ ensures vs_numericT(type1) && vs_numericT(type2) && vs_sameExclusive(type1, type2) && type1.Minimum == nil && type2.Minimum != nil ==> vs_hasCode(result, len(diffs), AddedConstraint)
+//@ ensures vs_sameExclusive(type1, type2) && vs_sameFloat(type1.Maximum, type2.Maximum) && vs_sameFloat(type1.Minimum, type2.Minimum) ==> len(result) == len(diffs)
+
+//@ func CheckStringTypeChanges
+//@ props C12 C13 C14
+//@ safety
+//@ modifies nothing
+//@ requires type1 != nil && type2 != nil && len(type1.Type) > 0 && len(type2.Type) > 0
+//@ ensures vs_extends(diffs, result)
+//@ ensures !(vs_stringT(type1) && vs_stringT(type2)) ==> vs_same(result, diffs)
+//@ ensures vs_stringT(type1) && vs_stringT(type2) && type1.MinLength != nil && type2.MinLength != nil && *type2.MinLength > *type1.MinLength ==> vs_hasCode(result, len(diffs), NarrowedType)
+//@ ensures vs_stringT(type1) && vs_stringT(type2) && type1.MinLength == nil && type2.MinLength != nil ==> vs_hasCode(result, len(diffs), AddedConstraint)
+//@ ensures vs_stringT(type1) && vs_stringT(type2) && type1.MaxLength != nil && type2.MaxLength != nil && *type2.MaxLength < *type1.MaxLength ==> vs_hasCode(result, len(diffs), NarrowedType)
+//@ ensures vs_stringT(type1) && vs_stringT(type2) && type1.MaxLength == nil && type2.MaxLength != nil ==> vs_hasCode(result, len(diffs), AddedConstraint)
+//@ ensures vs_stringT(type1) && vs_stringT(type2) && type1.Pattern != type2.Pattern ==> vs_hasCode(result, len(diffs), ChangedType)
+
+//@ func CompareEnums
+//@ props C12 C13 C14
+//@ trusted
+//@ modifies nothing
+//@ ensures len(result) <= 2 && vs_fresh(result)
+//@ ensures vs_all(func(i int) bool { return 0 <= i && i < len(result) ==> result[i].Change == AddedEnumValue || result[i].Change == DeletedEnumValue })
